@@ -1,9 +1,78 @@
-(* C16 — property theorems only. *)
-From Coq Require Import List Arith Bool PeanoNat Permutation.
-From TV Require Import Common.ObsCore C08.Model C08.Proofs C16.Model C16.Proofs.
+(* C16 — property theorems only (specification level: legacy_to_graph + reachability, and its
+   agreement with the C08 observe model; the legacy listener algorithm itself is tied by the
+   correspondence run through both APIs). *)
+From Coq Require Import ZArith List Arith Bool PeanoNat Permutation.
+From TV Require Import Common.Harness Common.ObsCore C08.Model C08.Law C08.Proofs C16.Model C16.Law C16.Corr C16.Proofs.
 Import ListNotations.
+Open Scope nat_scope.
 
-Theorem walk_goes_up_the_rank :
-  forall rank h o fo g, ranked rank h -> forall x, visits h g x o fo = true -> rank x <= rank o.
-Proof. exact visits_rank. Qed.
-Print Assumptions walk_goes_up_the_rank.
+(* On tree-shaped heaps (links go up a rank, no object is referenced twice) the graphs of a legacy
+   name reach every (object, trait) along at most one path: a listener that does not count
+   references and observe's reference-counted notifier report the same number of calls. *)
+Theorem unshared_multiplicity_le_1 :
+  forall rank h k e gs r x f,
+    ranked rank h -> unshared h -> names_nodup e -> legacy_to_graph e = Some gs ->
+    path_count h k gs r x f <= 1.
+Proof. exact path_count_le_1_lemma. Qed.
+Print Assumptions unshared_multiplicity_le_1.
+
+(* stronger: on such heaps no notifier at all is expected twice *)
+Theorem unshared_hooks_nodup :
+  forall rank h k e gs r,
+    ranked rank h -> unshared h -> names_nodup e -> legacy_to_graph e = Some gs ->
+    NoDup (flat_map (fun g => expected h k g r) gs).
+Proof.
+  intros rank h k e gs r R U ND L. destruct (legacy_distinct e gs ND L) as [DF DA].
+  apply (expected_list_NoDup rank h k R U gs r DF DA).
+Qed.
+Print Assumptions unshared_hooks_nodup.
+
+(* Specification = observe model: in any state satisfying the C08 invariant whose registrations are
+   the graphs of the name, for any notified change of (x, f) on a tree-shaped heap, the number of
+   calls the C08 model makes for the key equals the number of paths of the legacy specification. *)
+Theorem legacy_spec_eq_observe_model :
+  forall rank st o x f e gs k,
+    inv st -> op_hyp st o = true -> notified st o = Some (x, f) ->
+    ranked rank (st_heap st) -> unshared (st_heap st) ->
+    names_nodup e -> legacy_to_graph e = Some gs -> st_regs st = map (pair k) gs ->
+    length (filter (hkey_eqb k) (map call_key (ob_calls (snd (step st o)))))
+    = path_count (st_heap st) k gs (snd k) x f.
+Proof. exact legacy_eq_observe_lemma. Qed.
+Print Assumptions legacy_spec_eq_observe_model.
+
+(* ... where the C08 hypothesis (edge-acyclicity) holds trivially: links go up the rank, and the
+   objects put into the slot are above its owner (fresh objects at every insertion). *)
+Theorem tree_shaped_edge_acyclic :
+  forall rank h rs o fo news,
+    ranked rank h -> (forall y, In y news -> rank o < rank y) -> edge_acyclic h rs o fo news.
+Proof. exact ranked_edge_acyclic_lemma. Qed.
+Print Assumptions tree_shaped_edge_acyclic.
+
+(* Removing the registration stops all calls: a key without live registration is never called. *)
+Theorem remove_stops_calls :
+  forall st o k, inv st -> op_hyp st o = true -> (forall g, ~ In (k, g) (st_regs st)) ->
+    ~ In k (map call_key (ob_calls (snd (step st o)))).
+Proof. exact remove_stops_calls_lemma. Qed.
+Print Assumptions remove_stops_calls.
+
+(* Re-assigning the intermediate trait named first: reported iff the separator after it is '.'. *)
+Theorem dot_reports_colon_silent :
+  forall rank h names s rest gs r f,
+    ranked rank h -> rest <> [] -> NoDup names -> In f names ->
+    legacy_to_graph ((names, s) :: rest) = Some gs ->
+    existsb (fun g => matched h g r r f) gs = sep_notify s.
+Proof. exact dot_colon_lemma. Qed.
+Print Assumptions dot_reports_colon_silent.
+
+(* Non-vacuity: 'kids.f:value' on a tree; the graphs, a history through the C08 model with its
+   hypotheses, and the path counts. *)
+Example name_nontrivial :
+  let e := [([3], Dot); ([1], Colon); ([0], Dot)] in
+  let gs := [G 3 true [G 6 true [G 1 false [G 0 true []]]]] in
+  let ops := [SetCont 0 3 [1; 2] false; SetRef 1 1 [3]; SetRef 2 1 [4]; Observe 0 0 (hd (G 0 true []) gs);
+              Probe 3; SetRef 1 1 [5]; Probe 3; Probe 5; Splice 6 6 0 1 []; Probe 5] in
+  legacy_to_graph e = Some gs
+  /\ hyps (init 6) ops = true
+  /\ map (fun p => length (ob_calls (snd p))) (run (init 6) ops) = [0; 0; 0; 0; 1; 0; 0; 1; 1; 0]
+  /\ path_count (st_heap (final (init 6) (firstn 4 ops))) (0, 0) gs 0 3 0 = 1.
+Proof. vm_compute. repeat split; reflexivity. Qed.
